@@ -22,7 +22,7 @@ fn spec0() -> Spec {
 fn model_canary() -> Model {
     // a Canary-islands zone (different July sun table than the peninsular zones) with a shaded window
     let mut m = simple_box(zone("A3c"));
-    m.shades.push(Shade { id: uid("sh"), name: "sh".into(), geometry: geom(90.0, 0.0, Some([2.0, -3.0, 0.0]), rect(6.0, 4.0)) });
+    m.shades.push(Shade { id: uid("sh"), name: "sh".into(), geometry: geom(90.0, 0.0, Some([2.0, -3.0, 0.0]), rect(6.0, 4.0)), ..Default::default() });
     m
 }
 
@@ -31,7 +31,7 @@ fn model_failing() -> Model {
     let mut m = simple_box(zone("E1"));
     m.windows[0].wall = uid("missing-wall");
     m.walls[0].space = uid("missing-space");
-    m.loads.push(SpaceLoads { id: uid("l"), name: "l".into(), area_per_person: 1.0, people_schedule: Some(uid("missing-year")), people_sensible: 1.0, people_latent: 1.0, equipment: 1.0, equipment_schedule: None, lighting: 1.0, lighting_schedule: None });
+    m.loads.push(SpaceLoads { id: uid("l"), name: "l".into(), area_per_person: 1.0, people_schedule: Some(uid("missing-year")), people_sensible: 1.0, people_latent: 1.0, equipment: 1.0, equipment_schedule: None, lighting: 1.0, lighting_schedule: None, ..Default::default() });
     m.spaces[0].loads = Some(uid("l"));
     m
 }
